@@ -439,18 +439,20 @@ fn special_layouts(ctx: &mut Ctx, r: &mut StdRng, mlog: &Path) {
     files.insert("docs/api/ref.txtpp".into(), mark("docs_api_ref").into_bytes());
     materialize(&parent, &files, &[]);
     let _ = std::fs::remove_file(mlog);
-    let layout = r.gen_range(0..4);
+    let layout = r.gen_range(0..5);
     let recursive = r.gen_bool(0.5);
     let (inputs, expected): (Vec<String>, Vec<&str>) = match layout {
         0 => (vec![".".into()], vec!["pair_suffix", "pair_middle", "site_other"]),
         1 => (vec!["page.html.txtpp".into(), "page.txtpp.html".into()], vec!["pair_suffix", "pair_middle"]),
+        // an empty list of inputs (library API) names nothing: nothing is processed
+        4 => (vec![], vec![]),
         2 => (vec!["../docs".into(), "other.txt".into()], if recursive { vec!["docs_guide", "docs_api_ref", "site_other"] } else { vec!["docs_guide", "site_other"] }),
         _ => (vec![parent.join("docs").display().to_string()], if recursive { vec!["docs_guide", "docs_api_ref"] } else { vec!["docs_guide"] }),
     };
     let threads = [1usize, 2, 4][r.gen_range(0..3)];
     let mode = if r.gen_bool(0.7) { Mode::Build } else { Mode::InMemoryBuild };
     let cfg = RunCfg { base: base.clone(), inputs: inputs.clone(), mode, threads, recursive, trailing: true, shell: String::new() };
-    let via_cli = r.gen_bool(0.25);
+    let via_cli = r.gen_bool(0.25) && layout != 4; // (the CLI cannot express an empty list: it substitutes `.`)
     let ok = if via_cli {
         let o = run_cli(&base, &cfg.cli_args(), &CliOpts::default());
         ctx.count("cli_runs", 1);
